@@ -173,12 +173,20 @@ def analyse(fns, is_source_call, label):
             g = fns[gi]
             # require the type/impl name to appear in the call text to limit false matches
             tyname = None
-            mm = re.search(r"(\w+)(?:::<[^>]*>)?::%s" % re.escape(short), callee)
-            if mm:
-                tyname = mm.group(1)
-            if tyname and tyname not in g.header and tyname not in ("Self",):
-                # e.g. Vec::new vs SuperMinHash::new
-                if not re.search(r"\b%s\b" % re.escape(tyname), g.types.get("_0", "") + " ".join(t for _, t in g.params)):
+            mq = re.match(r"^<\s*&?(?:mut )?(\w+)", callee.strip())
+            if mq:
+                tyname = mq.group(1)           # <Type<..> as Trait>::name  ->  Type
+            else:
+                mm = re.search(r"(\w+)(?:::<[^>]*>)?::%s" % re.escape(short), callee)
+                if mm:
+                    tyname = mm.group(1)       # path::Type::<..>::name  ->  Type
+            if tyname is None:
+                # a free function: only crate functions that are not methods can be meant
+                if "impl at" in g.name or "::" not in callee and g.name.split("::")[-1] != short:
+                    continue
+            elif tyname not in ("Self",):
+                # e.g. Vec::new vs SuperMinHash::new: the type must occur in the callee's signature
+                if not re.search(r"\b%s\b" % re.escape(tyname), g.header):
                     continue
             clauses.append(("f%d%s" % (fi, d), ["f%d_0" % gi]))
             for (pl, pt), a in zip(g.params, arg_locals):
